@@ -1,0 +1,26 @@
+//go:build !verif
+
+// Package verifhook holds observation and perturbation hooks for runtime
+// monitoring. Without the "verif" build tag every function is an empty,
+// inlinable stub.
+package verifhook
+
+// Sites at which Step and Yield are called.
+const (
+	SiteScanToken = iota
+	SiteCompileNode
+	SiteRenderNode
+	SiteLoopIter
+	SiteApplyFilter
+	SiteExprParse
+	SiteCycle
+	SiteTrimWrite
+	SiteDropResolve
+	NumSites
+)
+
+// Step counts one logical unit of work at site.
+func Step(site int) {}
+
+// Yield is a schedule-perturbation point.
+func Yield(site int) {}
